@@ -235,7 +235,9 @@ func (env *Env) c13Tcb(e *flow.Engine) {
 		for _, in := range b.Instrs {
 			if st, ok := in.(*ssa.Store); ok {
 				if ia, ok := st.Addr.(*ssa.IndexAddr); ok {
-					if _, isSlice := ia.X.Type().Underlying().(*types.Slice); isSlice && flow.StripConv(e.Eval(ia.Index, e.Root(fn))).Op == flow.OpIter {
+					ixt := flow.StripConv(e.Eval(ia.Index, e.Root(fn)))
+					viaHelper := ixt.Contains(func(x *flow.Term) bool { return x.Op == flow.OpIter })
+					if _, isSlice := ia.X.Type().Underlying().(*types.Slice); isSlice && (ixt.Op == flow.OpIter || viaHelper) {
 						if compStore == nil {
 							compStore = st
 						} else if compStore != st {
@@ -253,6 +255,12 @@ func (env *Env) c13Tcb(e *flow.Engine) {
 		idx := e.Eval(ia.Index, e.Root(fn))
 		var inner string
 		isIter := iterFrom(pat.Const("0"), &inner)(idx, pat.Bind{})
+		if !isIter {
+			// the index comes out of a lookup helper (`i, found := indexOf(oid)`): decide
+			// on the alternatives that reach the store, where the helper's exit is definite
+			env.c13TcbViaHelper(e, fn, compStore, elems, g)
+			goto rest
+		}
 		// guard: Equal(tcbValue.Type, prefix || (i+1)) with the same i
 		oidM := pat.Conv(pat.Concat(pat.Global("pcs.sgxTcbComponentOidPrefix"), pat.Pred(func(t *flow.Term) bool {
 			// the appended element: i + 1 of the same induction variable
@@ -285,6 +293,7 @@ func (env *Env) c13Tcb(e *flow.Engine) {
 			r.Fail("C13/TCB", "component-index", env.P.Pos(compStore.Pos()), fmt.Sprintf("component SVN i must be stored at index i (%v) under Equal(element OID, prefix||(i+1)) of the same i (%v), with i running over all 16 indices from 0 for every element (%v) and every element visited (%v) — otherwise extraction depends on the order of the elements", isIter, okGuard, okBound, okOuter))
 		}
 	}
+rest:
 	// PCESvn store through asn1U16; CPUSvn store
 	u16 := env.fn("pcs", "asn1U16")
 	u8 := env.fn("pcs", "asn1U8")
@@ -457,14 +466,14 @@ func (env *Env) c13Unmarshal(e *flow.Engine) {
 				if hasGateAny(a, pat.Bin("==", pat.Res("1", pat.Is(ct)), pat.Const("nil"))) == nil {
 					okErr = false
 				}
-				if hasGateAny(a, pat.Bin("==", pat.Len(pat.Res("0", pat.Is(ct))), pat.Const("0"))) == nil {
+				if hasGateAny(a, pat.Empty(pat.Res("0", pat.Is(ct)))) == nil {
 					okRest = false
 				}
 			}
 			if n == 0 {
 				// the call is conditional (inside a loop / branch): check the gates at the blocks following it
 				okErr = env.afterCallGate(ee, fn, c, pat.Bin("==", pat.Res("1", pat.Is(ct)), pat.Const("nil")))
-				okRest = env.afterCallGate(ee, fn, c, pat.Bin("==", pat.Len(pat.Res("0", pat.Is(ct))), pat.Const("0")))
+				okRest = env.afterCallGate(ee, fn, c, pat.Empty(pat.Res("0", pat.Is(ct))))
 			}
 			if okErr {
 				r.OK("C13/UNMARSHAL", key+"#err", env.P.Pos(c.Pos()), "error on a reject edge")
@@ -564,4 +573,58 @@ func (env *Env) c13Asserts(e *flow.Engine) {
 		}
 	}
 	_ = token.NoPos
+}
+
+// c13TcbViaHelper: the component store's index is the result of a lookup
+// helper. On every alternative reaching the store the index must be the
+// helper's loop counter i (from 0), under Equal(OID, prefix||(i+1)) of the same
+// i, with i < 16 the loop's bound; and the outer loop visits every element.
+func (env *Env) c13TcbViaHelper(e *flow.Engine, fn *ssa.Function, st *ssa.Store, elems *flow.Term, g *flow.Graph) {
+	r := env.R
+	ia := st.Addr.(*ssa.IndexAddr)
+	alts := e.GatesAt(fn, e.Root(fn), st.Block().Index)
+	if len(alts) == 0 {
+		r.Fail("C13/TCB", "component-index", env.P.Pos(st.Pos()), "the component store is unreachable")
+		return
+	}
+	okOuter := false
+	for _, l := range g.Loops {
+		head := fn.Blocks[l.Head]
+		if iff, ok := head.Instrs[len(head.Instrs)-1].(*ssa.If); ok {
+			if pat.Bin("<", iterFrom(pat.Const("0"), nil), pat.Len(pat.Is(elems)))(e.Eval(iff.Cond, e.Root(fn)), pat.Bind{}) {
+				okOuter = true
+			}
+		}
+	}
+	size := env.repoConst("pcs", "tcbComponentSize")
+	for ai, a := range alts {
+		idx := flow.StripConv(e.Eval(ia.Index, a.Ctx))
+		var inner string
+		isIter := iterFrom(pat.Const("0"), &inner)(idx, pat.Bind{})
+		oidM := pat.Conv(pat.Concat(pat.Global("pcs.sgxTcbComponentOidPrefix"), pat.Pred(func(t *flow.Term) bool {
+			return t.Contains(func(x *flow.Term) bool {
+				return x.Op == flow.OpIter && inner != "" && strings.HasPrefix(x.Name, inner) && len(x.Args) == 2 && x.Args[0].IsConst("1") && x.Args[1].IsConst("1")
+			})
+		})))
+		guard := pat.Call("(encoding/asn1.ObjectIdentifier).Equal", pat.Any(), oidM)
+		bound := pat.Bin("<", pat.Is(idx), pat.Const(size))
+		okGuard, okBound := false, false
+		for _, gt := range a.Gates {
+			if gt.Pred == nil {
+				continue
+			}
+			if gt.Loop == "" && guard(gt.Pred, pat.Bind{}) {
+				okGuard = true
+			}
+			if bound(gt.Pred, pat.Bind{}) || (gt.Dom != nil && bound(gt.Dom, pat.Bind{})) {
+				okBound = true
+			}
+		}
+		key := fmt.Sprintf("component-index#%d", ai)
+		if isIter && okGuard && okBound && okOuter {
+			r.OK("C13/TCB", key, env.P.Pos(st.Pos()), "component i stored at index i (found by the lookup helper) under Equal(OID, prefix||i+1); i runs over 0..15; every element visited")
+		} else {
+			r.Fail("C13/TCB", key, env.P.Pos(st.Pos()), fmt.Sprintf("component SVN i must be stored at index i (%v) under Equal(element OID, prefix||(i+1)) of the same i (%v), with i running over all 16 indices from 0 (%v) and every element visited (%v) — otherwise extraction depends on the order of the elements", isIter, okGuard, okBound, okOuter))
+		}
+	}
 }
